@@ -1,6 +1,6 @@
 (* GenSelector.v - GENERATED from /repo by /verif/translator; do not edit.
    source cssutils/css/selector.py sha1 99be1dfb97b1
-   source cssutils/serialize.py sha1 bf9f09bff87f
+   source cssutils/serialize.py sha1 c63358564408
 *)
 From Coq Require Import List NArith ZArith Bool.
 From CssV Require Import Base.Regex Base.Tokens.
